@@ -677,6 +677,35 @@ pub fn run(args: &Args, rec: &mut Recorder) {
         let mut lc = LayoutCfg::c05(rng);
         lc.newline_pct = 100;
         let mut r = render(&flat, &lc, rng);
+        // a comment on a line of its own directly in front of a faulty token (inside a parameter
+        // list comments are skipped, not stored): the diagnostic must still carry the line of the token
+        if rng.coin() {
+            let cand: Vec<usize> = inj
+                .faults
+                .iter()
+                .filter(|f| !f.sentinel.is_empty() && (f.marker == 0 || f.class == "InvalidIdentifier" || f.class == "UnexpectedTokenType"))
+                .filter_map(|f| flat.toks.iter().position(|t| t.tok.text == f.sentinel))
+                .collect();
+            if !cand.is_empty() {
+                let i = *rng.pick(&cand);
+                let l = r.lines[i] as usize;
+                let mut lines: Vec<&str> = r.text.split('\n').collect();
+                if l >= 2 && l <= lines.len() && lines[l - 1].trim_start().starts_with(flat.toks[i].tok.text.as_str()) {
+                    let n = rng.urange(1, 2);
+                    for _ in 0..n {
+                        lines.insert(l - 1, if rng.coin() { "  /* remark */" } else { "// remark" });
+                    }
+                    let new_text = lines.join("\n");
+                    for x in r.lines.iter_mut() {
+                        if *x as usize >= l {
+                            *x += n as u32;
+                        }
+                    }
+                    r.text = new_text;
+                    rec.bump("docs_with_comment_in_front_of_faulty_token");
+                }
+            }
+        }
         let mut trailing_span = (0u32, 0u32);
         if trailing {
             let last_line = r.text.matches('\n').count() as u32 + 1;
@@ -826,6 +855,7 @@ pub fn run(args: &Args, rec: &mut Recorder) {
         rec.floor(k, 3);
     }
     rec.floor("outcome.strict=Ok.nonstrict=Ok", 10);
+    rec.floor("docs_with_comment_in_front_of_faulty_token", 5);
     rec.floor("outcome.strict=Err.nonstrict=Ok+log", 10);
     rec.floor("outcome.strict=Err.nonstrict=Err", 10);
 }
